@@ -15,6 +15,7 @@ import (
 	"github.com/plgd-dev/go-coap/v3/net/responsewriter"
 	"github.com/plgd-dev/go-coap/v3/pkg/cache"
 	"github.com/plgd-dev/go-coap/v3/pkg/math"
+	"github.com/plgd-dev/go-coap/v3/pkg/verifhook"
 	"golang.org/x/sync/semaphore"
 )
 
@@ -885,6 +886,7 @@ func (b *BlockWise[C]) processReceivedMessage(w *responsewriter.ResponseWriter[C
 		return err
 	}
 	defer closeCachedReceivedMessage()
+	verifhook.Yield("blockwise.receive.holdingGuard", 0)
 
 	defer func(err *error) {
 		if *err != nil {
